@@ -28,7 +28,7 @@ fn check_modulus(cx: &mut Cx, what: &str, p: &Integer, q: &Integer, n: &Integer)
         if x.is_probably_prime(40) == IsPrime::No { cx.violation("C18", format!("{what}/{name}-not-prime"), x.to_string_radix(16)); }
         let half = Integer::from(x - 1u32) / 2u32;
         if half.is_probably_prime(40) == IsPrime::No { cx.violation("C18", format!("{what}/({name}-1)/2-not-prime"), x.to_string_radix(16)); }
-        if x.significant_bits() != 513 { cx.violation("C18", format!("{what}/{name}-bit-length"), format!("{} bits, expected 513", x.significant_bits())); }
+        if x.significant_bits() != PRIME_BITS { cx.violation("C18", format!("{what}/{name}-bit-length"), format!("{} bits, expected {PRIME_BITS}", x.significant_bits())); }
     }
 }
 
@@ -67,7 +67,7 @@ pub fn run_c18(cx: &mut Cx) {
         if let Some(co) = &cpk_own {
             cx.count("probe.own_modulus_commitment_key");
             if co.N == pk.N { cx.violation("C18", "commitment-key-own/modulus-equals-issuer".into(), String::new()); }
-            if co.N.significant_bits() < 1025 || co.N.significant_bits() > 1026 { cx.violation("C18", "commitment-key-own/modulus-bit-length".into(), format!("{} bits", co.N.significant_bits())); }
+            if co.N.significant_bits() < 2 * PRIME_BITS - 1 || co.N.significant_bits() > 2 * PRIME_BITS { cx.violation("C18", "commitment-key-own/modulus-bit-length".into(), format!("{} bits", co.N.significant_bits())); }
             if co.N.is_probably_prime(30) != IsPrime::No || co.N.is_perfect_square() { cx.violation("C18", "commitment-key-own/modulus-shape".into(), String::new()); }
             // a product of two 513-bit safe primes has no small prime factor (the factors themselves are
             // discarded by the library, so this is the strongest check available)
